@@ -387,3 +387,31 @@ mod tests {
         assert_eq!(canonical(&v).unwrap(), "{\"a\":3,\"\u{10000}\":1,\"\u{e000}\":2}");
     }
 }
+
+/// "Sticky digit" spellings of a positive finite double x: the exact midpoint between x and its
+/// upper neighbour, written positionally, followed by zeros up to well beyond the 1 100th
+/// fraction digit (no double and no midpoint has more than 1 075) and a final `1`; and the same
+/// with only a few zeros. Both lie just above the midpoint and must round to the upper neighbour;
+/// a parser or shortcut that drops digits beyond some position rounds them to x (tie to even)
+/// whenever x's mantissa is even.
+pub fn sticky_spellings(x: f64) -> Vec<String> {
+    if !(x.is_finite() && x > 0.0) {
+        return Vec::new();
+    }
+    let (m, e) = decompose(x);
+    let (n, s) = exact_scaled(2 * m as u128 + 1, e - 1);
+    let s = s as usize;
+    // positional: integer part, point, fraction of exactly s digits
+    let (int, frac) = if s == 0 {
+        (n.clone(), String::new())
+    } else if n.len() > s {
+        (n[..n.len() - s].to_string(), n[n.len() - s..].to_string())
+    } else {
+        ("0".to_string(), format!("{}{}", "0".repeat(s - n.len()), n))
+    };
+    if int.len() > 400 {
+        return Vec::new();
+    }
+    let far = 1100usize.saturating_sub(frac.len()) + 30;
+    vec![format!("{int}.{frac}{}1", "0".repeat(far)), format!("{int}.{frac}{}1", "0".repeat(3)), format!("-{int}.{frac}{}1", "0".repeat(far))]
+}
